@@ -70,6 +70,8 @@ def check_C20(tier, seed):
         run_export_models(out, "C20", [exp_model("lines", {1})])
     else:
         run_export_models(out, "C20", [exp_model("sankey", {1, 2, 3}, 4), exp_model("lines", {1})])
+    from .checks_lifecycle import run_lifecycle_traces
+    run_lifecycle_traces(out, "C20", tier, direction_a=False)    # Sankey diagrams of live, recomputed systems (recorded model runs)
     out.exhaustive = tier != "quick"
     out.assumptions += [
         "Sankey: every combination of slice dictionary (none / one / two sliced dimensions), excluded processes (sysenv, none, sysenv + B), "
